@@ -30,7 +30,7 @@ func init() {
 			"registrations happen only while caching is enabled and a registered-only name is not rendered with the cache off",
 			"loader mtimes are logical counters set by the harness (os.Chtimes for files), never the wall clock",
 		},
-		quick: 3000, thorough: 120000, minQuick: 1200, minThorough: 50000,
+		quick: 20000, thorough: 400000, minQuick: 8000, minThorough: 150000,
 	}})
 }
 
